@@ -59,6 +59,8 @@ func sentinelSwallowed(p *core.Prog, g *ssa.Global) (bool, string) {
 // C23 Killing or shutting down a provider disables exactly that provider.
 func c23(r *core.Report, p *core.Prog, thorough bool) {
 	r.Explain = "Decided (structure of provider.Kill and provider.ShutDown, the two shared entry points of all kill/shutdown handlers): the stake pool that providerSpecific(req) returned is the one that is killed and saved, it is saved under the request id / the provider's own id and type (never the caller's id); on every committing exit that follows an effect the owner/delegate authorisation has passed (an exit commits when it returns nil or a sentinel error that a caller converts into success); the authorisation predicate compares the caller with the configured owner (ShutDown: or the pool's delegate wallet) and nothing else; on every success path the provider is marked, the pool is killed exactly once with the configured fraction and saved, with errors aborting; HasBeenKilled is set only by StakePool.Kill, which slashes once. The reward gate (!HasBeenKilled before every reward credit) is decided under C10. Not decided: slashed amounts; the per-contract callbacks beyond their calls into Kill/ShutDown."
+	r.Rule("C23.no-reward-after-kill", "every credit to a stake pool's or a delegate pool's Reward in StakePool.DistributeRewards / DistributeRewardsRandN is dominated by !sp.HasBeenKilled (a dead provider's pool is never paid again, whatever its delegates look like)")
+	c23NoRewardAfterKill(r, p)
 	r.Rule("C23.save-key", "sp.Save in Kill/ShutDown: receiver is the pool returned by providerSpecific(req); type argument is p.Type(); id argument is req.ID or p.Id() of that same provider")
 	r.Rule("C23.authorized", "no path entry → effect → committing exit avoids a passed AuthorizeWithOwner; effects: refresh callback, provider mutators, calls on the pool with arguments, non-getter calls on the state context")
 	r.Rule("C23.auth-predicate", "the authorisation closure returns clientID == ownerId (ShutDown: || clientID == sp.GetSettings().DelegateWallet); no other operand, no constant true")
@@ -507,4 +509,47 @@ func fieldName2(t types.Type, idx int) string {
 		return st.Field(idx).Name()
 	}
 	return ""
+}
+
+func c23NoRewardAfterKill(r *core.Report, p *core.Prog) {
+	dpReward := p.Field(pkgSP, "DelegatePool", "Reward")
+	spReward := p.Field(pkgSP, "StakePool", "Reward")
+	if dpReward == nil || spReward == nil {
+		r.Unresolved("C23.no-reward-after-kill", "DelegatePool.Reward/StakePool.Reward")
+		return
+	}
+	n := 0
+	for _, name := range []string{"DistributeRewards", "DistributeRewardsRandN"} {
+		fn := p.Func("(*" + pkgSP + ".StakePool)." + name)
+		if fn == nil {
+			r.Unresolved("C23.no-reward-after-kill", name)
+			continue
+		}
+		credits := append(CreditsOf(fn, dpReward), CreditsOf(fn, spReward)...)
+		// credits made by helpers the distributor calls count at the call site
+		var sites []ssa.Instruction
+		for _, c := range credits {
+			sites = append(sites, c.W.Instr)
+		}
+		for _, b := range fn.Blocks {
+			for _, in := range b.Instrs {
+				c, ok := in.(*ssa.Call)
+				if !ok {
+					continue
+				}
+				h := c.Call.StaticCallee()
+				if h == nil || h.Pkg == nil || h.Pkg.Pkg.Path() != pkgSP || h.Blocks == nil {
+					continue
+				}
+				if len(CreditsOf(h, dpReward))+len(CreditsOf(h, spReward)) > 0 {
+					sites = append(sites, c)
+				}
+			}
+		}
+		for i, at := range sites {
+			n++
+			r.Check(BoolFact(at.Block(), ".HasBeenKilled", false), "C23.no-reward-after-kill", fmt.Sprintf("%s:credit#%d", name, i+1), p.Pos(at.Pos()), "reached only with HasBeenKilled == false")
+		}
+	}
+	r.Floor("C23.no-reward-after-kill", "reward credits in the distributors", n, 6)
 }
